@@ -152,6 +152,9 @@ class Scenario:
             m = self.model.get(cs.addr)
             if m:
                 m.fin = True
+        elif k == "await_closed":
+            if not self.rig.wait_peer_readable(cs.addr):
+                self.problems.append(f"close of {cs.label} never reached the manager's socket")
         elif k == "name":
             nb = bytes.fromhex(st[2])
             self._send(cs, self._hdr(cs, W.MT_CLIENT_SET_NAME, struct.pack("<32s", nb)), {"kind": "name", "name": nb.hex()})
